@@ -145,10 +145,14 @@ Example C05_cond_reference_witness :
   run model_d [] [] e2 = run spec_d [] [] e2 /\ run spec_d [] [] e2 = Some (0, OP (PNum 0), [], []).
 Proof. vm_compute. repeat split; reflexivity. Qed.
 
-(* "aaa...a".lastIndexOf("a", NaN): 15.5.4.8 step 5 takes NaN as +Infinity (39); otto starts at 0 *)
-Theorem C05_lastindexof_position_refuted : exists e, run model_d [] [] e <> run spec_d [] [] e.
-Proof. exists (EUn 16 (ELit (VP (PNum nan_bits)))). vm_compute. discriminate. Qed.
-Print Assumptions C05_lastindexof_position_refuted.
+(* S40.lastIndexOf("a", NaN) is 39 (15.5.4.8 step 5: NaN counts as +Infinity) and S40.lastIndexOf("a", -Infinity)
+   is 0: former witnesses of C05-lastindexof-position, repaired by /repo commit ea386ab *)
+Example C05_lastindexof_position_witness :
+  let e1 := EUn 16 (ELit (VP (PNum nan_bits))) in
+  let e2 := EUn 16 (ELit (VP (PNum ninf_bits))) in
+  run model_d [] [] e1 = run spec_d [] [] e1 /\ run spec_d [] [] e1 = Some (0, OP (PNum 0x4043800000000000), [], []) /\
+  run model_d [] [] e2 = run spec_d [] [] e2 /\ run spec_d [] [] e2 = Some (0, OP (PNum 0), [], []).
+Proof. vm_compute. repeat split; reflexivity. Qed.
 
 (* String(9007199254740993) *)
 Theorem C05_int_repr_tostring_refuted :
